@@ -42,13 +42,12 @@ def main():
     try:
         mod.run(run)
     except Exception:
-        # a crash of the harness itself is not a verdict about the property
-        traceback.print_exc()
-        print(f'[{a.pid}] harness error (exit 2, not a verdict)')
-        if run.tmp is not None:
-            import shutil
-            shutil.rmtree(run.tmp, ignore_errors=True)
-        sys.exit(2)
+        # The harness is written not to raise on the unchanged tree.  An exception here means the real code (or the model
+        # driver) behaved in a way the correspondence does not cover: the correspondence no longer checks, which is
+        # reported as such (with the traceback as the replay) unless a failing input was already found.
+        tb = traceback.format_exc()
+        sys.stderr.write(tb)
+        run.disagree(dict(i=None), '(harness exception)', 'n/a', tb[-1500:], what='exception while exercising the real code')
     sys.exit(common.finish(run, proof, level=getattr(mod, 'LEVEL', 'proof')))
 
 
